@@ -6,6 +6,7 @@ CONSTANTS
   MultiNsPrecheck = "all-first"
   RollbackKinds = "all"
   SchemaListRollback = TRUE
+  DeleteClassUndo = TRUE
   RollbackScope = "target-namespace"
 INVARIANT Atomic
 INVARIANT Completes
